@@ -222,7 +222,8 @@ def _getTextType(text, log=None):
     """Check if given text is XML (**naive test!**)
     used if no content-type given
     """
-    if text[:30].find('<?xml version=') != -1:
+    marker = b'<?xml version=' if isinstance(text, bytes) else '<?xml version='
+    if text[:30].find(marker) != -1:
         return _XML_APPLICATION_TYPE
     else:
         return _OTHER_TYPE
@@ -298,10 +299,11 @@ def getMetaInfo(text, log=None):
     """
     p = _MetaHTMLParser()
 
-    try:
-        p.feed(text)
-    except html.parser.HTMLParseError:
-        pass
+    if isinstance(text, bytes):
+        # the parser takes text only; the element is looked for in ASCII
+        # compatible documents so any other character is of no interest
+        text = text.decode('ascii', 'replace')
+    p.feed(text)
 
     if p.content_type:
         m = Message()
